@@ -258,6 +258,23 @@ fn http_config(max_peers: usize, max_scrape_torrents: usize, v4: bool, default_c
     (cases, f, format!("served; largest scrape answered: {} hashes", largest_answered))
 }
 
+/// Next message satisfying `pred` within `total_ms` (other messages - late replies to earlier requests - are skipped);
+/// None when the deadline passes or the connection is closed.
+fn recv_matching(c: &mut WsConn, total_ms: u64, pred: impl Fn(&str) -> bool) -> Option<String> {
+    let end = std::time::Instant::now() + std::time::Duration::from_millis(total_ms);
+    loop {
+        let left = end.saturating_duration_since(std::time::Instant::now()).as_millis() as u64;
+        if left == 0 {
+            return None;
+        }
+        match c.recv_text_or_closed(left.min(2000)) {
+            Ok(Some(x)) if pred(&x) => return Some(x),
+            Ok(_) => continue,
+            Err(()) => return None,
+        }
+    }
+}
+
 /// WebTorrent tracker: the largest messages a configuration makes the tracker send - a forwarded offer and answer as large
 /// as websocket_max_message_size admits, a scrape reply for max_scrape_torrents torrents per swarm worker with identifiers
 /// that take six JSON bytes per character - must arrive whole, whatever websocket_write_buffer_size is.
@@ -282,39 +299,38 @@ fn ws_config(write_buffer: usize, max_message: usize, max_scrape: usize, swarm_w
         id20(&h)
     };
     let pid = |p: u8| id20(&[b'A' + p; 20]);
-    let offer_msg = |sdp: usize| json!({"action": "announce", "info_hash": hash(0, 9), "peer_id": pid(2), "numwant": 1, "left": 1, "offers": [{"offer_id": id20(&[b'o'; 20]), "offer": {"type": "offer", "sdp": "s".repeat(sdp)}}]}).to_string();
-    let answer_msg = |sdp: usize| json!({"action": "announce", "info_hash": hash(0, 9), "peer_id": pid(1), "numwant": 0, "left": 1, "answer": {"type": "answer", "sdp": "t".repeat(sdp)}, "to_peer_id": pid(2), "offer_id": id20(&[b'o'; 20])}).to_string();
-    let overhead = offer_msg(0).len().max(answer_msg(0).len());
+    let offer_msg = |sdp: usize, k: u8| json!({"action": "announce", "info_hash": hash(0, 14 + k), "peer_id": pid(2 + 2 * k), "numwant": 1, "left": 1, "offers": [{"offer_id": id20(&[b'o'; 20]), "offer": {"type": "offer", "sdp": "s".repeat(sdp)}}]}).to_string();
+    let answer_msg = |sdp: usize, k: u8| json!({"action": "announce", "info_hash": hash(0, 14 + k), "peer_id": pid(1 + 2 * k), "numwant": 0, "left": 1, "answer": {"type": "answer", "sdp": "t".repeat(sdp)}, "to_peer_id": pid(2 + 2 * k), "offer_id": id20(&[b'o'; 20])}).to_string();
+    let overhead = offer_msg(0, 0).len().max(answer_msg(0, 0).len());
     // the largest SDP whose announce is still accepted, one less, and half of it
-    for sdp in [max_message - overhead, max_message - overhead - 1, (max_message - overhead) / 2] {
+    // every size in its own torrent with its own peer ids: the connections of the previous size are dropped without waiting for the
+    // tracker to notice, and an announce that reuses a peer id still owned by a dying connection is rightly ignored (C08)
+    for (k, sdp) in [max_message - overhead, max_message - overhead - 1, (max_message - overhead) / 2].into_iter().enumerate() {
+        let k = k as u8;
         cases += 1;
         let (Some(mut a), Some(mut b)) = (WsConn::connect_patiently(addr), WsConn::connect_patiently(addr)) else {
             machinery_failure(&format!("{}: could not connect", label));
         };
         let detail = json!({"configuration": label, "sdp_bytes": sdp});
-        a.send_text(json!({"action": "announce", "info_hash": hash(0, 9), "peer_id": pid(1), "numwant": 0, "left": 1, "event": "started"}).to_string());
-        let _ = a.recv_text(5000);
-        send_fragmented(&mut b, &offer_msg(sdp));
-        let b_reply = b.recv_text(5000).is_some();
-        let offer_ok = a.recv_text(5000).map(|x| x.matches('s').count() >= sdp).unwrap_or(false);
+        a.send_text(json!({"action": "announce", "info_hash": hash(0, 14 + k), "peer_id": pid(1 + 2 * k), "numwant": 0, "left": 1, "event": "started"}).to_string());
+        // the receiver has to be stored before the offer is sent: its announce reply is awaited patiently (no time is part of
+        // this property; a reply that arrives late must not be mistaken for the forwarded offer below)
+        if recv_matching(&mut a, 30_000, |x| x.contains("\"complete\"")).is_none() {
+            machinery_failure(&format!("{}: the receiving peer's own announce was not answered within 30 s", label));
+        }
+        send_fragmented(&mut b, &offer_msg(sdp, k));
+        let b_reply = recv_matching(&mut b, 15_000, |x| x.contains("\"complete\"")).is_some();
+        let offer_ok = recv_matching(&mut a, 15_000, |x| x.contains("\"offer\"") && x.matches('s').count() >= sdp).is_some();
         a.send_text(json!({"action": "scrape", "info_hash": hash(1, 9)}).to_string());
-        let a_alive = a.recv_text(5000).is_some();
+        let a_alive = recv_matching(&mut a, 15_000, |x| x.contains("\"files\"")).is_some();
         if !b_reply || !offer_ok || !a_alive {
-            fs.push(Finding { sig: "ws/largest-offer-not-delivered".into(), what: format!("[{}] announce of {} bytes (the largest accepted) with one offer: sender answered: {}, offer delivered whole: {}, receiver's connection usable: {}", label, offer_msg(sdp).len(), b_reply, offer_ok, a_alive), detail });
+            fs.push(Finding { sig: "ws/largest-offer-not-delivered".into(), what: format!("[{}] announce of {} bytes (the largest accepted) with one offer: sender answered: {}, offer delivered whole: {}, receiver's connection usable: {}", label, offer_msg(sdp, k).len(), b_reply, offer_ok, a_alive), detail });
             continue;
         }
-        send_fragmented(&mut a, &answer_msg(sdp));
-        let mut answer_ok = false;
-        for _ in 0..2 {
-            if let Some(x) = b.recv_text(5000) {
-                if x.contains("\"answer\"") && x.matches('t').count() >= sdp {
-                    answer_ok = true;
-                    break;
-                }
-            }
-        }
+        send_fragmented(&mut a, &answer_msg(sdp, k));
+        let answer_ok = recv_matching(&mut b, 15_000, |x| x.contains("\"answer\"") && x.matches('t').count() >= sdp).is_some();
         b.send_text(json!({"action": "scrape", "info_hash": hash(1, 9)}).to_string());
-        let b_alive = b.recv_text(5000).is_some();
+        let b_alive = recv_matching(&mut b, 15_000, |x| x.contains("\"files\"")).is_some();
         if !answer_ok || !b_alive {
             fs.push(Finding { sig: "ws/largest-answer-not-delivered".into(), what: format!("[{}] answer of {} SDP bytes: delivered whole: {}, offerer's connection usable: {}", label, sdp, answer_ok, b_alive), detail });
         }
@@ -330,15 +346,17 @@ fn ws_config(write_buffer: usize, max_message: usize, max_scrape: usize, swarm_w
         let mut hashes = Vec::new();
         for i in 0..n {
             hashes.push(hash(i, 3));
-            c.send_text(json!({"action": "announce", "info_hash": hash(i, 3), "peer_id": pid(3), "numwant": 0, "left": 1, "event": "started"}).to_string());
-            let _ = c.recv_text(5000);
+            c.send_text(json!({"action": "announce", "info_hash": hash(i, 3), "peer_id": pid(9), "numwant": 0, "left": 1, "event": "started"}).to_string());
+            if recv_matching(&mut c, 30_000, |x| x.contains("\"complete\"")).is_none() {
+                machinery_failure(&format!("{}: announce {} of the scrape preparation was not answered within 30 s", label, i));
+            }
         }
         let req = json!({"action": "scrape", "info_hash": hashes}).to_string();
         send_fragmented(&mut c, &req);
-        let r = c.recv_text(8000);
+        let r = recv_matching(&mut c, 20_000, |x| x.contains("\"files\""));
         let files = r.as_ref().and_then(|x| serde_json::from_str::<serde_json::Value>(x).ok()).and_then(|v| v.get("files").and_then(|f| f.as_object().map(|o| o.len())));
         c.send_text(json!({"action": "scrape", "info_hash": hash(1, 9)}).to_string());
-        let alive = c.recv_text(5000).is_some();
+        let alive = recv_matching(&mut c, 15_000, |x| x.contains("\"files\"")).is_some();
         if files != Some(n) || !alive {
             fs.push(Finding { sig: "ws/largest-scrape-unanswered".into(), what: format!("[{}] scrape of {} torrents that all have a peer (request {} bytes): reply lists {:?} ({} bytes); connection usable afterwards: {}", label, n, req.len(), files, r.map(|x| x.len()).unwrap_or(0), alive), detail: json!({"configuration": label, "scrape_torrents": n}) });
         }
@@ -436,6 +454,31 @@ pub fn main(args: &Args) -> ! {
             (c, f, o, format!("ws websocket_write_buffer_size={} websocket_max_message_size={} max_scrape_torrents={} swarm_workers={}", w, m, s, wm))
         }
     });
+    // a configuration with findings is run again on its own (the sweep runs a dozen trackers side by side): only what shows
+    // again in isolation is reported, with the isolated run's wording
+    let mut results = results;
+    let mut reruns = 0u64;
+    let mut not_reproduced: Vec<String> = Vec::new();
+    for (i, j) in jobs.iter().enumerate() {
+        if results[i].1.is_empty() {
+            continue;
+        }
+        reruns += 1;
+        let (_, f2, _) = match j {
+            Job::Udp(u, l, s, v4) => udp_config(*u, *l, *s, *v4),
+            Job::Http(l, s, v4, d) => http_config(*l, *s, *v4, *d),
+            Job::Ws(w, m, s, wm) => ws_config(*w, *m, *s, *wm),
+        };
+        let first: Vec<String> = results[i].1.iter().map(|f| f.sig.clone()).collect();
+        for sig in &first {
+            if !f2.iter().any(|f| &f.sig == sig) {
+                not_reproduced.push(format!("{} [{}]", sig, results[i].3));
+            }
+        }
+        results[i].1 = f2.into_iter().filter(|f| first.contains(&f.sig)).collect();
+    }
+    run.set("configurations_rerun_in_isolation", reruns);
+    run.set("findings_not_reproduced_in_isolation", json!(not_reproduced));
     let mut cases = 0;
     let mut served = 0;
     let mut refused = 0;
